@@ -14,7 +14,7 @@ from checks import xref_common as C
 
 PROPERTY = "C15"
 LEVEL = "exploration"
-RULE = ("every body of <= 2 (thorough <= 3) items over a 119-item reference alphabet + 110 extended single items, one generated "
+RULE = ("every body of <= 2 (thorough <= 3) items over a 129-item reference alphabet + 110 extended single items, one generated "
         "program per body; non-trivial = the body contains a const-string, new-instance or const-class; distinct by construction "
         "(the sequence is the enumeration index)")
 ASSUMPTIONS = ["operands that are the method's own class or an array of a class are 'not another class': their entries may be present "
